@@ -8,7 +8,7 @@ A world (JSON-able dict):
   req        ordered list of requested names
   nsrc       number of sources; src[s][m] in {'ok', 'notfound', 'error'}          (default: source 0 holds everything)
   variant    {m: k} which of several distinct healthy texts source s supplies is (m, s) -> text id  (C08)
-  text       {m: kind}  healthy | empty | comment | lexerr | synerr | truncated | dupsym | badimport | twomods | misnamed |
+  text       {m: kind}  healthy | empty | comment | lexerr | synerr | truncated | dupsym | unktype | badimport | twomods | misnamed |
                         bundle (two modules, the first importing from the second)
   symerr     [m...]  the symbol-table generator raises PySmiSemanticError for m
   generr     [m...]  the code generator raises PySmiCodegenError for m
@@ -73,6 +73,10 @@ def source_text(world, s, m):
         return good[:good.index('END')]
     if kind == 'dupsym':
         return good.replace('END', 'x%s OBJECT IDENTIFIER ::= { enterprises 999 }\nEND' % m)
+    if kind == 'unktype':
+        # a real symbol-table failure that leaves a postponed symbol behind (object of a type nobody defines)
+        return good.replace('IMPORTS ', 'IMPORTS OBJECT-TYPE FROM SNMPv2-SMI\n    ', 1).replace(
+            'END', 'u%s OBJECT-TYPE SYNTAX NowhereDefinedType MAX-ACCESS read-only STATUS current DESCRIPTION "d" ::= { x%s 7 }\nEND' % (m, m))
     if kind == 'badimport':
         return good.replace('IMPORTS ', 'IMPORTS nosuchSymbol FROM SNMPv2-TC\n    ', 1).replace(
             'END', 'z%s OBJECT IDENTIFIER ::= { nosuchSymbol 1 }\nEND' % m)
@@ -341,9 +345,9 @@ def reference(world):
             failed[m] = set(['missing', 'failed'])   # a file without any module: the name must still be accounted for
             continue
         kind = world.get('text', {}).get(m, 'healthy')
-        if kind == 'dupsym' or any(c in world.get('symerr', []) for c in mods):
+        if kind in ('dupsym', 'unktype') or any(c in world.get('symerr', []) for c in mods):
             # the whole file is abandoned at the first module whose symbol table fails
-            bad_at = 0 if kind == 'dupsym' else min(i for i, c in enumerate(mods) if c in world.get('symerr', []))
+            bad_at = 0 if kind in ('dupsym', 'unktype') else min(i for i, c in enumerate(mods) if c in world.get('symerr', []))
             for c in mods[:bad_at]:
                 parsed[c] = m
                 order.append(c)
